@@ -24,7 +24,6 @@
 import json
 import random
 import re
-import shutil
 from concurrent.futures import ThreadPoolExecutor
 from pathlib import Path
 
@@ -34,7 +33,7 @@ from vlib.common import ToolError, build_wild, log, run_wild, save_replay, scrat
 
 PROP = "C08"
 META = {
-    "ready": False,
+    "ready": True,
     "level": "model_checking",
     "technique": "TLA+ spec of the glibc GNU/SysV hash lookups and of wild's table construction, exhaustively "
                  "model-checked with TLC on a bounded instance; the same lookup operators evaluated by TLC on tables "
@@ -543,7 +542,7 @@ def observed(ctx, cov, rng, d, wild):
                 kind = {"def": "defined-symbol-not-found", "probe": "wrong-answer-for-name"}[what]
                 key = f"{tab}:{kind}:{st}:{c.kind}:{c.style}:{c.strategy}:dup{min(c.n_dup, 1)}"
                 text = (f"{c.id}: {tab} lookup gives '{st}' for {len(fl)} name(s), e.g. {fl[0]['name']!r} "
-                        f"(dynsym index/probe {fl[0]['index']}); wild {' '.join(x.split('/')[-1] for x in c.args)}")
+                        f"(dynsym index/probe {fl[0]['index']}); wild {' '.join(x.rsplit('/', 1)[-1] if x.startswith('/') else x.replace(str(c.dir) + '/', '') for x in c.args)}")
                 ctx.verdict.report(key, text, lambda c=c, fl=fl, o=o: save_replay(
                     PROP, f"{c.id}", c.dir, files={"observation.json": json.dumps(o)},
                     meta={"args": c.args, "fails": fl[:50], "id": c.id}))
